@@ -93,6 +93,25 @@ void lemma_Atomic_Factors(void)
             "Atomic_Factors fails only when a factor is unavailable: a factor that is exactly 0 is a value");
     VASSERT(ONE_ERROR(error), "Atomic_Factors: every failure carries exactly one error"); }
 }
+/* any subset of the three factors may be requested (NULL = not wanted): unrequested ones are neither computed nor able to fail the call */
+void lemma_Atomic_Factors_optional(void)
+{
+  ND_Z(Z); ND_ENERGY(E); ND_FINITE(q); ND_FINITE(debye); ND_ERRSLOT(error); ND_BOOL(w0); ND_BOOL(w1); ND_BOOL(w2);
+  double f0 = 7.0, f1 = 7.0, f2 = 7.0; int r, bad;
+  GHOST_RESET();
+  r = Atomic_Factors(Z, E, q, debye, w0 ? &f0 : NULL, w1 ? &f1 : NULL, w2 ? &f2 : NULL, error);
+  VASSERT((w0 || f0 == 7.0) && (w1 || f1 == 7.0) && (w2 || f2 == 7.0), "Atomic_Factors: a factor that was not requested is not written");
+  if (debye <= 0.0) { VASSERT(r == 0 && ONE_ERROR(error) && (!w0 || f0 == 0.0) && (!w1 || f1 == 0.0) && (!w2 || f2 == 0.0), "Atomic_Factors (optional outputs): a non-positive Debye factor is an error, requested factors 0"); }
+  else {
+    bad = (w0 && !LEAFOK_FF_Rayl(Z, q)) || (w1 && !LEAFOK_Fi(Z, E)) || (w2 && !LEAFOK_Fii(Z, E));
+    VASSERT((r == 0) == (bad != 0), "Atomic_Factors (optional outputs): fails exactly when a requested factor is unavailable");
+    if (r) { VCANARY("optional atomic factors defined");
+      VASSERT((!w0 || SAME(f0, LEAF_FF_Rayl(Z, q) * debye)) && (!w1 || SAME(f1, LEAF_Fi(Z, E) * debye)) && (!w2 || SAME(f2, -LEAF_Fii(Z, E) * debye)) && NO_ERROR(error),
+              "Atomic_Factors (optional outputs): each requested factor = its table value x Debye factor"); }
+    else { VCANARY("optional atomic factors fail");
+      VASSERT(ONE_ERROR(error) && (!w0 || f0 == 0.0) && (!w1 || f1 == 0.0) && (!w2 || f2 == 0.0), "Atomic_Factors (optional outputs): a failure carries exactly one error and zeroes the requested factors"); }
+  }
+}
 #endif
 #ifdef STUB_FH_CALLEES
 #ifndef ZA
